@@ -76,4 +76,12 @@ than the stream has bytes. -/
 def holdsLoop (stream : Bytes) (o : LoopObs) : Bool :=
   o.returned && o.closed && o.leftover == 0 && decide (o.pkts ≤ stream.length)
 
+/-- Retention bound of the harness: bytes of live heap a refused pre-authentication packet may leave
+behind on average once caches and per-address tables are warm (minimum over three measured
+batches, so allocator noise does not count).  The repaired tree measures 0–3;
+one leaked map entry or timer per packet costs 100 bytes and more. -/
+def retainBound : Nat := 64
+
+def holdsRetain (perOp : Nat) : Bool := decide (perOp ≤ retainBound)
+
 end Tunnox.C05
